@@ -820,6 +820,40 @@ def gdf_frames(tier, seed):
                 fresh[label(c)] = call(g, da, c)
             except Exception as e:  # noqa: BLE001
                 fresh[label(c)] = ("EXC", type(e).__name__)
+        # data alignment in a frame whose antimeridian is moved (project=False: the rows stay in degrees, relative to the central
+        # longitude): every row carries the value of the face whose corners are its vertices
+        orc = Oracle(mesh)
+        for c in cfgs:
+            site, pe, proj, eng, project = c
+            if site != "dgdf" or project is not False or proj is None or isinstance(fresh[label(c)], tuple):
+                continue
+            lon0 = float(proj.proj4_params.get("lon_0", 0))
+            n = fresh[label(c)]
+            cases += 1
+            if n["values"] is None or len(n["values"]) != len(n["rows"]):
+                continue        # row / value counts are the main stand-in's business
+            for r_i, (rings, val) in enumerate(zip(n["rows"], n["values"])):
+                f = int(round(float(val) - 1000.0))
+                if not (0 <= f < orc.nf) or len(rings) != 1:
+                    continue
+                ring = np.asarray(rings[0], float)
+                if len(ring) > 1 and np.allclose(ring[0], ring[-1]):
+                    ring = ring[:-1]
+                want = np.stack([orc.lon[orc.corners[f]] - lon0, orc.lat[orc.corners[f]]], axis=1)
+                if len(ring) != len(want):
+                    ok = False
+                else:
+                    # same vertex multiset, longitudes compared modulo 360 (poles: longitude free)
+                    def key(p):
+                        return (round(float(p[1]), 3), None if abs(abs(p[1]) - 90.0) < 1e-6 else round(float(p[0]) % 360.0, 3) % 360.0)
+                    ok = sorted(map(str, map(key, ring))) == sorted(map(str, map(key, want)))
+                if not ok:
+                    failures.append({"key": f"data_alignment:UxDataArray.to_geodataframe:{pe}:central_longitude={lon0:g}:project=False",
+                                     "what": f"{label(c)} on a fresh grid: row {r_i} carries the value of face {f} but its vertices are not that face's corners",
+                                     "violated": "each data value stays attached to the polygon(s) of its own face under every option",
+                                     "inputs": {"mesh": mesh["name"], "call": label(c)}, "observed": np.round(ring, 3).tolist()[:8],
+                                     "expected": np.round(want, 3).tolist()[:8]})
+                    break
         pairs = [(b, a) for b in cfgs for a in cfgs if label(a) != label(b)]
         if not thorough:
             rng.shuffle(pairs)
